@@ -162,19 +162,24 @@ PROPS = {
                                     "AbsoluteCategoricalDissimilarity.compile_d_mat", "AbstractDissimilarity.__init__#absolute",
                                     "CategoricalDissimilarity.__init__#absolute", "AbsoluteCategoricalDissimilarity.__init__",
                                     "CombinedCategoricalDissimilarity.compile_d_mat", "AbstractDissimilarity.__init__#combined",
-                                    "CombinedCategoricalDissimilarity.__init__#defaults", "CombinedCategoricalDissimilarity.__init__#supplied")],
+                                    "CombinedCategoricalDissimilarity.__init__#defaults", "CombinedCategoricalDissimilarity.__init__#supplied",
+                                    "CombinedCategoricalDissimilarity.d",
+                                    "PrecomputedCategoricalDissimilarity.compile_d_mat", "AbstractDissimilarity.__init__#precomputed",
+                                    "CategoricalDissimilarity.__init__#precomputed", "PrecomputedCategoricalDissimilarity.__init__",
+                                    "PrecomputedCategoricalDissimilarity.d")],
         oracles=[DS + "CombinedCategoricalDissimilarity.__init__"],
         bounded=[dict(oracle=DS + "CombinedCategoricalDissimilarity.__init__",
-                      what="the constructors of the precomputed / ordinal / numerical / Levenshtein families and of a combined dissimilarity with "
-                           "supplied components, Precomputed.d, Combined.d and check_if_dissim (assumed to change nothing) are not under "
-                           "contract: every class, delta_empty in "
+                      what="the matrix-building constructors of the ordinal / numerical / Levenshtein families (numpy argsort / unique loops) and "
+                           "check_if_dissim (assumed to change nothing) are not under contract; that d() and d_mat(encoded units) coincide is the "
+                           "corollary 'both equal the same formula' given an injective category index: every class, delta_empty in "
                            "{0.5,1,2,3}, shuffled label order, 1..300 categories, components built with another delta_empty: d_mat(encoded) == "
                            "d(units) == documented formula, symmetric, >= 0, 0 on identical units")],
         design_ref="DESIGN.md section 4 C04",
         not_decided=["Levenshtein DP == edit distance (not part of the statement)", "float32 rounding (S2)",
                      "class invariant kappa == delta_empty: proved for PositionalSporadic, AbsoluteCategorical and the default Combined "
                      "constructor, with default components and with supplied positional / absolute components built with any other delta_empty "
-                     "(the one delta_empty reaches both components and their kernels); other families: bounded"],
+                     "(the one delta_empty reaches both components and their kernels), PrecomputedCategorical (kernel reads the object's matrix); the "
+                     "matrices built by the ordinal / numerical / Levenshtein constructors (label-order independence): bounded"],
         trusted=S_COMMON + ["model: pyannote Segment.duration", "closure semantics: captured names are declared and checked against the "
                             "free variables of the closure body; a nested def yields a pure function value satisfying its own (separately "
                             "proved) contract with the captured names bound to their values at the definition (not re-assigned afterwards: checked)",
